@@ -227,6 +227,10 @@ def uniform_dequantize(
       tensor_data, quantization_params
   )
   _is_valid_quantization_params(tensor_data, quantization_params)
+  if np.issubdtype(tensor_data.dtype, np.integer):
+    # int8/int16 data minus a zero point of the same type can leave the range
+    # of that type (e.g. 127 - (-128)); subtract in a wider type.
+    tensor_data = tensor_data.astype(np.int64)
   return np.multiply(
       tensor_data - quantization_params.zero_point, quantization_params.scale
   )
